@@ -116,6 +116,7 @@ func checkC02(c *Ctx) {
 	ruleCloseAtLineStart(c)
 	ruleCollectBound(c)
 	ruleHookEnd(c)
+	ruleSpanOrder(c)
 }
 
 // ROOT-CUT: the Source of a root block ends exactly where the span of the block it carries ends.
